@@ -74,6 +74,22 @@ def c08_a(ctx: Ctx):
                 out.append(ctx.viol(R, fi, n, f"{fi.qual.split(':')[-1]} enumerates the state point cache ({enum}): the cache is a superset that may hold removed or "
                                     "foreign ids, so listings / prefix matches / counts taken from it differ from the workspace when the cache file is stale"))
     out.append(ctx.ok(R, None, None, f"{n_keyed} other uses of _sp_cache are keyed lookups / stores", construct="_sp_cache|keyed", nontrivial=False))
+    # membership in the cache is not evidence that a job exists (the cache is a superset)
+    n_mem = 0
+    for fi in ctx.prog.funcs.values():
+        if fi.module.is_dep or fi.module.name == "signac.__main__":
+            continue
+        root = fi
+        while root.parent is not None:
+            root = root.parent
+        for n in body_nodes(fi):
+            if isinstance(n, ast.Compare) and len(n.ops) == 1 and isinstance(n.ops[0], (ast.In, ast.NotIn)) and _is_cache(n.comparators[0]):
+                n_mem += 1
+                if root.qual in MAINT:
+                    out.append(ctx.ok(R, fi, n, "membership test on _sp_cache inside cache maintenance"))
+                else:
+                    out.append(ctx.viol(R, fi, n, f"{fi.qual.split(':')[-1]} takes `{canon(n)[:40]}` as evidence about a job: the cache keeps ids of removed jobs (and of jobs that were only opened), "
+                                        "so the answer differs between a fresh, a stale and a deleted cache file"))
     # the listing functions read the directory
     jd = ctx.fn("signac.project:Project._job_dirs")
     if any(common.ext_name(ctx, jd, c) in ("os.listdir", "os.scandir") for c in body_nodes(jd) if isinstance(c, ast.Call)):
